@@ -533,6 +533,54 @@ pub fn generate(profile: &str, seed: u64, n_ops: usize, blob: bool) -> History {
     let w_snap = rng.range(2, 8) as u32;
     let w_special = rng.range(4, 12) as u32;
     let w_reopen = rng.range(0, 3) as u32;
+    if profile == "blob" && rng.chance(1, 4) {
+        // border pattern on a fresh tree: n keys flushed into ONE blob file, split into one table
+        // per key, one end key dropped (the file is fragmented, not dead), two small newer L0
+        // tables over the interior keys, then a partial (leveled) merge. The table holding the
+        // other end key stays outside the merge and still points into the fragmented file; its
+        // only key EQUALS the blob file's smallest (or largest) key.
+        cfg.staleness = *rng.pick(&[0.01f32, 0.25]);
+        cfg.age_cutoff = 1.0;
+        // one data block per item, so that `major` with a 1-byte target writes one table per key
+        cfg.block_size = 1;
+        let mut ks: Vec<Vec<u8>> = st.keys.clone();
+        ks.sort();
+        ks.dedup();
+        let n = (rng.range(3, 5) as usize).min(ks.len());
+        let start = rng.below((ks.len() - n + 1) as u64) as usize;
+        let ks: Vec<Vec<u8>> = ks.into_iter().skip(start).take(n).collect();
+        if n >= 3 {
+            for k in &ks {
+                let mut v = rand_value(&mut rng, &mut st.vn, true);
+                v.extend(std::iter::repeat(b'#').take(rng.range(20, 90) as usize));
+                ops.push(Op::Put(k.clone(), v));
+            }
+            ops.push(Op::FlushActive(Wm::Zero));
+            ops.push(Op::Major { target: 1, w: Wm::Zero });
+            let dropped = if rng.chance(1, 2) { ks[n - 1].clone() } else { ks[0].clone() };
+            ops.push(Op::DropRange(Bnd::Incl(dropped.clone()), Bnd::Incl(dropped)));
+            // k ++ [0] is the immediate successor of k: above k, below every other key above k
+            let succ = |k: &Vec<u8>| {
+                let mut k2 = k.clone();
+                k2.push(0);
+                k2
+            };
+            // (so at most ks[1]); the newer tables span (ks[0], ks[n-2]]: they overlap the interior tables only, so the
+            // surviving end table ([ks[0]] or [ks[n-1]]) is left out of the merge
+            for k2 in [succ(&ks[0]), ks[n - 2].clone()] {
+                let v = rand_value(&mut rng, &mut st.vn, false);
+                ops.push(Op::Put(k2, v));
+                ops.push(Op::FlushActive(Wm::Zero));
+            }
+            ops.push(Op::Leveled { l0: 2, target: *rng.pick(&[1u64 << 20, 4096]), w: Wm::Zero });
+            for k in &ks {
+                ops.push(Op::Get(k.clone(), None));
+            }
+            if rng.chance(1, 2) {
+                ops.push(Op::Reopen);
+            }
+        }
+    }
     while ops.len() < n_ops {
         match rng.weighted(&[w_write, w_maint, w_read, w_snap, w_special, w_reopen]) {
             0 => {
